@@ -40,6 +40,12 @@ func allChecks() []CheckSpec {
 					Bounds: "2 local + 1 remote candidates (2 pairs), symbolic pair states/flags, selection nil or any, nominatedPair nil or any valid pair, 0..1 outstanding transactions, candidate priorities 1..256", MustReach: []string{"controlling", "controlled", "nomination-outstanding", "USE-CANDIDATE-sent", "deferred-nomination-armed", "request-on-a-not-yet-valid-pair", "done"}},
 				{Fn: "verifC01TickProgress", Lemma: "progress of one real ContactCandidates tick while nothing is selected, from a symbolic agent state: an outstanding nomination is retransmitted (exactly one USE-CANDIDATE request on that pair, the pair is kept); with a valid pair and no nomination outstanding the best valid pair gets nominated and the nomination goes out on it; otherwise every Waiting/In-Progress pair within its retry budget is checked again (one request, count+1) and a pair beyond the budget fails; the controlled side never sends USE-CANDIDATE",
 					Bounds: "2 pairs, symbolic states, retry counts 0..9 against the budget of 7, 32-bit candidate priorities, both roles (full agents)", MustReach: []string{"retransmit", "nominate", "check", "rechecked", "budget-exhausted", "done"}},
+				{Fn: "verifC06AddRemote", Lemma: "step lemma (R) for convergence across the trickle of a candidate the agent already knows as peer-reflexive: when the signalled candidate replaces it, every pair keeps its place in the protocol — id, state, nominated flag, the nomination deferred on it (plain or valued) and the selection — so a USE-CANDIDATE accepted on the not-yet-valid prflx pair is still honoured when its check succeeds",
+					Bounds: "2 local + 1 host + 1 prflx remote, symbolic pair states/flags, selection nil/any, 6 candidate kinds", MustReach: []string{"supersedes-prflx", "done"},
+					Cfg: func(c *HarnessCfg, tier int) { c.GoRunMatch = "AddRemoteCandidate$1" }},
+				{Fn: "verifC04DeadlineRearm", Lemma: "step lemma (S) for restarted sessions: the Restart that re-enters Checking re-arms the initial checking deadline — through the real connectivityChecks loop, the ticks after a Restart leave the agent Checking (and checking) until a full deadline has elapsed again, however old the session is",
+					Bounds: "deadline 100 ms + 100 ms, clock advanced by 300 / 120 / 150 ms between harness-driven ticks, one Restart", MustReach: []string{"failed-on-deadline", "done"},
+					Cfg: func(c *HarnessCfg, tier int) { c.GoPolicy = "queue" }},
 				{Fn: "verifC01LateResponse", Lemma: "a retransmission does not cancel the transaction it repeats: after 2..3 ticks on a not-yet-valid pair every check sent is still outstanding, and the authenticated response to ANY of them — the first included, i.e. a round trip longer than the check interval — validates the pair",
 					Bounds: "1 pair, 2..3 ticks, both roles, 96-bit transaction ids symbolic, clock steps within one transaction lifetime", MustReach: []string{"late-response", "done"}},
 			},
@@ -262,6 +268,18 @@ func allChecks() []CheckSpec {
 				{Fn: "verifC09RelayCandidates", Lemma: "addRelayCandidates/createRelayCandidate: when no candidate adopts the relay allocation it is closed and the TURN client + local socket (onClose) are released exactly once; adopted resources stay open and are released exactly once by candidate removal",
 					Bounds: "address rewrite none / replace-with-nothing / append one address; context live or cancelled", MustReach: []string{"rewrite-drops", "cancelled", "adopted", "not-adopted", "done"},
 					Cfg: func(c *HarnessCfg, tier int) { c.GoPolicy = "queue" }},
+				{Fn: "verifC09HostUDPMux", Lemma: "host candidates over a UDP mux (gatherCandidatesLocalUDPMux, real addCandidate and deleteAllCandidates): every mux reference the gatherer takes is adopted by exactly one candidate or released at once — with duplicate host configs (mDNS gather mode and listen addresses sharing a port), a superseded cycle, or a failing GetConn — and removing the candidates releases each adopted reference exactly once",
+					Bounds: "3 listen addresses (two of them with the same or different ports), mDNS query-only or gather mode, fault none / cancelled / 2nd GetConn fails", MustReach: []string{"mdns-gather", "duplicate-skipped", "cancelled", "getconn-fails", "done"},
+					Cfg: func(c *HarnessCfg, tier int) { c.GoPolicy = "queue" }},
+				{Fn: "verifC09CloseVsGather", Lemma: "after Close has returned the ended generation has no open socket and opens none: Close or GracefulClose at any explored moment of a running host gathering cycle — also one that is busy in the network until nothing else can move — waits for it; every socket the cycle opened is closed exactly once when Close returns, nothing is opened afterwards and no gatherer goroutine is left",
+					Bounds: "one IPv4 interface, host candidates only, socket opening immediate or gated until nothing else can move; schedules with <= 1 preemption and the first 3 free switches, closer delayed by 0..3 hand-overs", MustReach: []string{"closed", "slow-network", "socket-opened-before-close", "done"},
+					Cfg: func(c *HarnessCfg, tier int) {
+						c.GoPolicy = "explore"
+						c.ContextBound = 1
+						c.FreeChoiceBound = 3 + 2*tier
+						c.MaxPaths = 6000000
+						c.MaxWallS = 2400
+					}},
 				{Fn: "verifC09RelayBody", Lemma: "the goroutine body of gatherCandidatesRelay (TURN over UDP) with a fake net and TURN client factory: local socket, client and allocation are released exactly once on every failure (listen, factory, Listen, Allocate, location-tracked address, cancelled context) and adopted otherwise",
 					Bounds: "one TURN/UDP URL; 7 fault kinds (incl. the allocation's Close reporting an error at teardown) x context live/cancelled", MustReach: []string{"adopted", "released", "no-socket", "allocation-close-fails", "relay-outside-configured-network-types", "done"},
 					Cfg: func(c *HarnessCfg, tier int) { c.GoPolicy = "queue"; c.GoRunMatch = "gatherCandidatesRelay$1" }},
@@ -418,11 +436,20 @@ func allChecks() []CheckSpec {
 				{Fn: "verifC06AddRemote", Lemma: "public AddRemoteCandidate with every kind of trickled candidate (new host/srflx, duplicate, signalled candidate superseding a peer-reflexive one, TCP-active, nil) preserves the bookkeeping invariant I1-I5 (no pair twice, ids unique/in range/indexed, pairs formed from current candidates of one network type, selected listed, remotes deduplicated/never TCP-active/accepted by the IP filter); a superseded peer-reflexive candidate's pairs keep id, state, flags, priority and the selection",
 					Bounds: "2 local + 1 host + 1 prflx remote, symbolic pair states/flags, selection nil/any, remote IP filter rejecting one symbolic last octet, 6 candidate kinds", MustReach: []string{"filtered", "added", "duplicate", "supersedes-prflx", "ignored", "mdns-resolved-to-the-prflx-address", "done"},
 					Cfg: func(c *HarnessCfg, tier int) { c.GoRunMatch = "AddRemoteCandidate$1" }},
-				{Fn: "verifC06PrflxThenSignalled", Lemma: "signalled-then-prflx order: an authenticated request from a signalled candidate's address creates no duplicate remote", Bounds: "1+1 candidates, symbolic tie-breaker/priority", MustReach: []string{"done"}},
+				{Fn: "verifC06PrflxThenSignalled", Lemma: "signalled-then-prflx order: an authenticated request from a signalled candidate's address creates no duplicate remote and no second pair — also when that candidate is an mDNS name resolved in plain or IPv4-mapped form and the request's source is either form of the address", Bounds: "1+1 candidates (+1 mDNS candidate), symbolic tie-breaker/priority, 2x2 address forms", MustReach: []string{"mdns-resolved", "done"}},
 				{Fn: "verifC06InboundUnknown", Lemma: "authenticated request from an unknown source: the peer-reflexive candidate passes through the remote IP filter (filtered => nothing changes at all) and the invariant holds",
 					Bounds: "2 local + 1 remote, two unknown source addresses, filter rejecting one symbolic last octet", MustReach: []string{"filtered", "discovered", "done"}},
 				{Fn: "verifC06AddLocal", Lemma: "local candidate arrival (real addCandidate): new => paired with every remote and published once; duplicate => rejected, its socket closed once, not published; invariant holds",
 					Bounds: "1 local + 2 remotes, new/duplicate", MustReach: []string{"duplicate", "new", "done"}},
+				{Fn: "verifC06ContinualGathering", Lemma: "continual gathering: the interface monitor belongs to the gathering cycle that started it — through the real loop, GatherCandidates, gather goroutine, startNetworkMonitoring and its ticker: after Restart or Failed a new local address appears and the ticker fires, and the ended generation's monitor gathers nothing for the next one (no local candidate, no socket opened, every socket closed), and no goroutine is left after Close",
+					Bounds: "one IPv4 interface, a second one appearing after Restart/Failed, 2 ticker ticks, host candidates only; schedules with 0 preemptions and the first 2 free switches", MustReach: []string{"restart", "failed", "monitor-alive", "done"},
+					Cfg: func(c *HarnessCfg, tier int) {
+						c.GoPolicy = "explore"
+						c.ContextBound = tier
+						c.FreeChoiceBound = 2 + tier
+						c.MaxPaths = 2000000
+						c.MaxWallS = 1200
+					}},
 				{Fn: "verifC06RestartAndFailed", Lemma: "Restart and the Failed transition leave no pairs, index entries, candidates, selection or outstanding transactions; the pair id counter is not reset",
 					Bounds: "2+2 candidates, 4 pairs, a selection and an outstanding transaction; local candidates bare or started (receive loops), the first socket's Close succeeding or reporting an error", MustReach: []string{"restart", "failed", "socket-close-fails", "candidate-outside-configured-network-types", "done"},
 					Cfg: func(c *HarnessCfg, tier int) { c.GoPolicy = "queue" }},
@@ -442,8 +469,8 @@ func allChecks() []CheckSpec {
 					Bounds: "any 64-bit id, symbolic pair states, payload lengths {1,19,20,24}", MustReach: []string{"unknown-id", "not-succeeded", "sent", "done"}},
 				{Fn: "verifC07Inbound", Lemma: "non-STUN datagram at a local candidate: reaches the reader exactly once and byte-identical iff its source is (cached as) a known remote of the same transport; otherwise dropped with no state change; cache entries only map an address to the current remote with that address; Read adds exactly the returned n; each delivered datagram (the first and the cache-answered next one) refreshes the sender's LastReceived and no other remote's",
 					Bounds: "1 local + 2 UDP remotes + 1 TCP remote with another address, source = any IPv4 address:port / the TCP remote / IPv4-mapped remote, cache empty or pre-filled, payload lengths {1,19,20,24}", MustReach: []string{"unknown-source", "known-source", "done"}},
-				{Fn: "verifC07InboundSTUN", Lemma: "STUN-looking datagrams (header-only, any type/transaction id) never reach the reader buffer",
-					Bounds: "20-byte header with the magic cookie, symbolic type and transaction id, any source", MustReach: []string{"done"}},
+				{Fn: "verifC07InboundSTUN", Lemma: "STUN-looking datagrams (header-only, any type/transaction id) at the socket (handleInboundPacket) never reach the reader buffer and, carrying no credentials, change nothing — liveness instants included, also when the source is in the per-candidate data cache; only an indication may refresh liveness",
+					Bounds: "20-byte header with the magic cookie, symbolic type and transaction id, source = the known remote or any IPv4 address, cache empty or holding the remote", MustReach: []string{"source-cached", "indication", "done"}},
 			},
 			Assumptions: append([]string{
 				"sockets are recording fakes with nondeterministic outcomes (ok / error / io.ErrClosedPipe); packetio.Buffer and sync.Map: real code / sequential model",
@@ -487,6 +514,13 @@ func allChecks() []CheckSpec {
 		{
 			ID: "C03",
 			Harnesses: []HarnessSpec{
+				{Fn: "verifC06AddRemote", Lemma: "lemma (A): signalling selects nothing. AddRemoteCandidate with every kind of trickled candidate — the replacement of a peer-reflexive candidate included, whose pairs may carry a stale nominated flag or a nomination still in flight — leaves the selection where it was: it only follows the selected pair into its replacement, and no other pair becomes selected",
+					Bounds: "2 local + 1 host + 1 prflx remote, symbolic pair states/flags (nominated included), selection nil/any, 6 candidate kinds", MustReach: []string{"supersedes-prflx", "done"},
+					Cfg: func(c *HarnessCfg, tier int) { c.GoRunMatch = "AddRemoteCandidate$1" }},
+				{Fn: "verifC17PairPriority", Lemma: "lemma (P) under every selection guard: the pair priorities they compare are the exact RFC 8445 value (2^32-1)*min + 2*max + [g>d] for ALL 32-bit candidate priorities (peer-chosen ones reach 2^32-1; the step harnesses below range over 1..256 only), without 64-bit overflow",
+					Bounds: "all 2^32 x 2^32 (g,d) >= 1, both roles", MustReach: []string{"done"}},
+				{Fn: "verifC17PairMonotone", Lemma: "lemma (P'): pair priority is monotone in each argument and a higher min dominates, so 'strictly lower priority' between pairs is what the guards see",
+					Bounds: "all (g1,d1) <= (g2,d2) componentwise over 32-bit priorities", MustReach: []string{"done"}},
 				{Fn: "verifC03Controlling", Lemma: "controlling full agent: one authenticated Binding request or success response into the real handleInbound: selection invariant (selected => listed, Succeeded, nominated) preserved; a pair becomes Succeeded only on its own matched response (lite controlled: or on an authenticated nomination); controlling selects only on a matched response whose request carried USE-CANDIDATE; controlled selects on a request only with USE-CANDIDATE/nomination on that very pair and on a response only for a pair nominated earlier; a controlled agent never emits USE-CANDIDATE, a lite controlled agent never emits requests; plain USE-CANDIDATE never lowers the selected priority when priorities are checked",
 					Bounds: "2 local + 1 remote UDP candidates, symbolic pair states/flags, candidate priorities 1..256, selection nil or any pair, 0..1 (thorough 0..2) outstanding transactions, nomination attribute absent/valid(/short in thorough)", MustReach: []string{"pair-became-succeeded", "selection-changed", "controlling-selected", "done"}},
 				{Fn: "verifC03Controlled", Lemma: "controlled full agent: same lemma set",
@@ -537,6 +571,10 @@ func allChecks() []CheckSpec {
 				{Fn: "verifC02Inbound", Lemma: "one STUN message of any class/method into the real handleInbound from a symbolic pre-state: non-Binding and error responses, requests with a wrong/absent USERNAME or an integrity not under the local password, responses not under the remote password or from an unknown source change nothing observable (datagrams, candidates, pairs, selection, state, role, timestamps, callbacks, transactions); a signed response changes pair state only for an outstanding (<4 s), same-transport, same-address transaction and only on the pair (receiving local, source remote); an indication can only refresh the known remote's last-received",
 					Bounds:    "quick: 1 local + 1 remote UDP candidate, thorough: 2 locals + 1 remote and lite agents (2+2 exhausted a 45 min budget at 148 k paths and is not claimed); pair state/flags symbolic, selection nil or any pair, 0..2 outstanding transactions with symbolic id/age(0..20 s)/destination/transport; message: 4 classes, Binding or any 12-bit method, USERNAME absent/correct/arbitrary 9 bytes/arbitrary 8 bytes, integrity absent/local/remote/other key, USE-CANDIDATE, role attribute, 32-bit priority, arbitrary 96-bit transaction id; source = remote, its IPv4-mapped form, or any IPv4 address:port",
 					MustReach: []string{"not-handled", "request-unauthenticated", "request-authenticated", "response-bad-integrity", "response-unknown-source", "response-authenticated", "response-changed-pair-state", "indication", "indication-unknown-source", "done"}},
+				{Fn: "verifC07InboundSTUN", Lemma: "from the socket, not only from handleInbound: STUN-looking datagrams (header-only, any type/transaction id) at the socket (handleInboundPacket) never reach the reader buffer and, carrying no credentials, change nothing — liveness instants included, also when the source is in the per-candidate data cache; only an indication may refresh liveness",
+					Bounds: "20-byte header with the magic cookie, symbolic type and transaction id, source = the known remote or any IPv4 address, cache empty or holding the remote", MustReach: []string{"source-cached", "indication", "done"}},
+				{Fn: "verifC05Late487", Lemma: "the roles are settled by the requests alone: a correctly signed Binding error response (487 Role Conflict or 400) that answers an outstanding check, from the address the check went to, changes nothing at its receiver — role, selector, pairs, selection, transactions, liveness — so an agent that already gave way to the peer's conflicting request is not flipped back by the late 487 to a check it sent before",
+					Bounds: "both roles, any 64-bit tie-breaker, symbolic pair states, 96-bit transaction id, plain or USE-CANDIDATE check outstanding", MustReach: []string{"done"}},
 				{Fn: "verifC02AfterRestart", Lemma: "real Restart, then a request signed for the old generation or a response to an old transaction under the old remote password: nothing changes",
 					Bounds: "1 local + 1 remote, both roles, both message kinds", MustReach: []string{"done"}},
 				{Fn: "verifC02TrailingAttributes", Lemma: "attributes that follow MESSAGE-INTEGRITY are not authenticated (anyone on the path can append them to a genuine request; RFC 5389 §15.4: MUST be ignored, FINGERPRINT excepted): a correctly signed plain Binding request with USE-CANDIDATE, a nomination value and/or a role attribute (the peer's or the receiver's own) appended behind MESSAGE-INTEGRITY is handled exactly like the plain check: answered, but no role switch, no selection, no nomination recorded, stored nomination value untouched",
@@ -555,6 +593,8 @@ func allChecks() []CheckSpec {
 			Harnesses: []HarnessSpec{
 				{Fn: "verifC05RoleConflict", Lemma: "one authenticated Binding request into the real handleInbound: conflict iff the claimed role equals the own role; on conflict the role is kept and a 487 Binding error echoing the transaction id is sent iff (controlling and local>=remote) or (controlled and local<remote), otherwise the role flips, the selector is replaced and nothing is sent; never a success response, pair change, selection or new candidate; without conflict the request is answered",
 					Bounds: "all 2^64 x 2^64 (local, remote) tie-breakers, both own roles, attribute kinds {none, controlling, controlled, both}, with/without USE-CANDIDATE; 1 local + 1 remote UDP candidate, full agent", MustReach: []string{"conflict", "487", "switch", "no-conflict", "unknown-source", "done"}},
+				{Fn: "verifC05Late487", Lemma: "the roles are settled by the requests alone: a correctly signed Binding error response (487 Role Conflict or 400) that answers an outstanding check, from the address the check went to, changes nothing at its receiver — role, selector, pairs, selection, transactions, liveness — so an agent that already gave way to the peer's conflicting request is not flipped back by the late 487 to a check it sent before",
+					Bounds: "both roles, any 64-bit tie-breaker, symbolic pair states, 96-bit transaction id, plain or USE-CANDIDATE check outstanding", MustReach: []string{"done"}},
 				{Fn: "verifC05Pairwise", Lemma: "two agents in the same role with distinct tie-breakers: exactly one of the two cross-handled requests makes its receiver switch",
 					Bounds: "all distinct 64-bit tie-breaker pairs, both same-role starts", MustReach: []string{"done"}},
 			},
